@@ -183,6 +183,11 @@ def shrink(P, v, budget=150):
     return cur
 
 
+def _listed(cls, known):
+    """a violation showing several listed findings at once (class `a+b`) is listed when every one of them is"""
+    return bool(cls) and all(part in known for part in cls.split("+"))
+
+
 def run(P, pid, tier, seed, skip_gate=False):
     t0 = time.time()
     thorough = tier == "thorough"
@@ -231,7 +236,7 @@ def run(P, pid, tier, seed, skip_gate=False):
         lknown = set(k["class"] for k in common.load_known_findings(lender))
         skipped = 0
         for v in lvs:
-            if v["cls"] in lknown:
+            if _listed(v["cls"], lknown):
                 skipped += 1
                 continue
             v["lender"] = lender
@@ -251,13 +256,14 @@ def run(P, pid, tier, seed, skip_gate=False):
     for v in violations:
         if v.get("lender"):
             unknown.append(v)
-        elif v["cls"] in known_classes:
+        elif _listed(v["cls"], known_classes):
             if not v.get("tie_ok", True):
                 # a listed finding, but the implementation no longer behaves as the model of the code says
                 tie_breaks.append({"tag": v.get("tag"), "case": v["case"], "impl": "see replay", "model": "known-finding class %s" % v["cls"]})
-            if v["cls"] not in reported:
-                reported.add(v["cls"])
-                lines.append("KNOWN-FINDING: property=%s %s" % (pid, known_classes[v["cls"]]["what"]))
+            for part in v["cls"].split("+"):
+                if part not in reported:
+                    reported.add(part)
+                    lines.append("KNOWN-FINDING: property=%s %s" % (pid, known_classes[part]["what"]))
         else:
             unknown.append(v)
 
@@ -276,7 +282,7 @@ def run(P, pid, tier, seed, skip_gate=False):
             vs, _tb = evaluate(P, pid, batch, workers, sacc)
             searched += sacc["evaluations"]
             acc["evaluations"] += sacc["evaluations"]
-            unknown = [v for v in vs if v["cls"] not in known_classes]
+            unknown = [v for v in vs if not _listed(v["cls"], known_classes)]
             if not hasattr(P, "search_cases"):
                 break
 
